@@ -29,6 +29,10 @@ import threading
 import types
 import unittest
 
+def WARP(seconds):      # runrt points this at the runner's (virtual) clock
+    pass
+
+
 TRACE = []
 VPID = 0
 EXEC = {}             # (virtual pid, test id) -> executions so far (scripts x@K)
@@ -194,6 +198,8 @@ _SWAPPED = {}          # layer name -> streams saved by its setUp
 def _hook_body(lname, hook, faults):
     emit('L', lname, hook, '>')
     extra = _LAYER_EXTRA.get(lname) or {}
+    if extra.get('slow') and hook in ('setUp', 'tearDown'):
+        WARP(extra['slow'])          # this hook "takes" that many seconds
     if extra.get('sw'):
         # a layer that runs with a private sys.stdout of its own
         if hook == 'setUp':
@@ -230,11 +236,13 @@ def _hook_body(lname, hook, faults):
         emit('L', lname, hook, '!', exc)
         raise mkexc(exc, '%s.%s %s' % (lname, hook, exc))
     emit('L', lname, hook, '<')
+    if extra.get('ret') and hook in ('setUp', 'tearDown'):
+        return 'a resource handle'      # hooks that return something
 
 
 def _cls_hook(hook, faults):
     def h(cls):
-        _hook_body(cls.__name__, hook, faults)
+        return _hook_body(cls.__name__, hook, faults)
     h.__name__ = hook
     return classmethod(h)
 
@@ -262,7 +270,7 @@ def make_layers(spec_layers, modname):
             for hk in declared:
                 setattr(o, hk, functools.partial(_hook_body, L['n'], hk, faults))
             objs[L['n']] = o
-        if L.get('sw') or L.get('lh') or L.get('unpath'):
+        if L.get('sw') or L.get('lh') or L.get('unpath') or L.get('slow') or L.get('ret'):
             _LAYER_EXTRA[L['n']] = dict(L, _obj=objs[L['n']])
     return objs
 
@@ -480,6 +488,8 @@ class VTCase(unittest.TestCase):
         _do_writes(vt.get('w'))
         for act in vt.get('th') or ():
             thread_action(act)
+        if vt.get('slowt'):
+            WARP(vt['slowt'])            # a test that "takes" that long
         self._script(nth)
         # reached only when the script did not raise
         if vt.get('w2'):
